@@ -20,6 +20,7 @@ import numpy as np
 from lib import core
 
 EXTRACTORS = ["Update"]
+EXTRA_PROPS = ["C14Join", "C14Dtype"]   # lower_update_correct_partial, lower_get_at_correct, intermediate_spec; index dtype obligations
 MODES = ("set", "add", "sub")
 OPNAME = {"set": "set_at", "add": "add_at", "sub": "subtract_at"}
 BACKENDS = ("numpy", "numpy.numpylike")
@@ -696,6 +697,29 @@ def narrow_dtype_stream(ctx):
                     ctx.violation(sig, {"kind": "indexed update with narrow-dtype coordinates differs from the loop-notation meaning", "detail": bad,
                                         "description": "b [h] c, b q, b q", "shapes": [[B, H, C], [B, Q], [B, Q]], "coordinate_dtype": np.dtype(dt).name,
                                         "mode": mode, "backend": backend, "coordinates": idx.tolist()[:6], "updates": u.tolist()[:6]})
+    # the coordinates themselves in a dtype that cannot hold the flat address (the multiplication by the stride happens in
+    # the coordinates' dtype): get_at and set_at on a 20x20 target with int8 coordinates
+    tgt = np.arange(400, dtype=np.int64).reshape(20, 20)
+    co = np.array([[10, 5], [19, 19], [0, 3]], dtype=np.int8)
+    for fn, extra in (("get_at", []), ("set_at", [np.array([-1, -2, -3], dtype=np.int64)])):
+        for backend in BACKENDS:
+            desc = "[b c], p [2] -> p" if fn == "get_at" else "[b c], p [2], p -> [b c]"
+            sig = f"einx.{fn}('{desc}') target 20x20 coordinates dtype=int8 values [[10,5],[19,19],[0,3]] backend={backend}"
+            ctx.count("narrow_dtype_cases")
+            ctx.case(sig, True)
+            try:
+                got = np.asarray(getattr(einx, fn)(desc, tgt.copy(), co.copy(), *[e.copy() for e in extra], backend=backend))
+                if fn == "get_at":
+                    want = np.array([tgt[10, 5], tgt[19, 19], tgt[0, 3]])
+                else:
+                    want = tgt.copy()
+                    want[10, 5], want[19, 19], want[0, 3] = -1, -2, -3
+                bad = None if (got.shape == want.shape and np.array_equal(got, want)) else f"returned {got.reshape(-1)[:6].tolist()}… instead of {want.reshape(-1)[:6].tolist()}…" if fn == "set_at" else f"returned {got.tolist()} instead of {want.tolist()}"
+            except Exception as e:
+                bad = None if is_rejection(e) else f"{type(e).__name__}: {str(e)[:150]}"
+            if bad is not None:
+                ctx.violation(sig, {"kind": "coordinates in a narrow integer dtype address wrong elements", "detail": bad, "description": desc,
+                                    "coordinate_dtype": "int8", "backend": backend})
     return found
 
 
@@ -834,6 +858,23 @@ def run(ctx):
             if got != addr["lowered"]:
                 model_bad += 1
                 ctx.tie_broken("correspondence:ravel-kernel", f"get_at({get_description(case, names)!r}) on a ramp: real {got} vs model {addr['lowered']}")
+
+    # -- work package "join": the lowering as a function of the description alone (with the C16 model of `_join_exprs`)
+    #    against the complete traced graph; index dtype of `_ravel` (Props/C14Join.lean, Props/C14Dtype.lean)
+    if drv is not None:
+        import random as _random
+        from props import at_tie
+        trng = _random.Random(f"c14-at:{ctx.seed}")
+        calls = []
+        for _ in range(60 if ctx.quick else 600):
+            c = gen_case(trng, small=True)
+            if 0 in c["sizes"].values():
+                continue
+            shapes, kwargs = at_tie.from_update_case(None, c)
+            calls.append((OPNAME[trng.choice(MODES)], description(c), shapes, kwargs))
+        at_tie.at_tie(ctx, 30 if ctx.quick else 400, calls, arange_dtype=facts.get("arange_dtype", "?"))
+        if not facts.get("arange_dtype_wide", False):
+            ctx.notes.append("T-src: the index ranges of `_ravel` are not created in a fixed dtype of at least 32 bits (obligation extracted_index_dtype_wide fails)")
 
     found += narrow_dtype_stream(ctx)
 
